@@ -28,8 +28,9 @@ class C02(Prop):
         'leaf segmentation of text is not part of the structure (adjacent '
         'text leaves are merged before comparing)',
     )
-    probes = ('buf', 'tok', 'read')
-    probed_every = 0
+    probes = ('read', 'reach')
+    probed_every = 16
+    reach_required = ['reader.read_expr', 'reader.read_env', 'reader.read_item', 'reader.read_args', 'reader.read_command', 'tokens.tokenize_command_name', 'tokens.tokenize_punctuation_command_name']
     min_nontrivial = 1000
     budget_s = {'quick': 240, 'thorough': 3000}
 
